@@ -374,6 +374,7 @@ type EpochBitmapState struct {
 	Generations    []byte            `json:"generations"`
 	Subscribers    map[string]uint64 `json:"subscribers"`
 	IPToSubscriber map[uint64]string `json:"ip_to_subscriber"`
+	NextFreeHint   uint64            `json:"next_free_hint"`
 }
 
 // MarshalJSON implements json.Marshaler.
@@ -393,6 +394,7 @@ func (a *EpochBitmapAllocator) MarshalJSON() ([]byte, error) {
 		Generations:    a.generations,
 		Subscribers:    a.subscribers,
 		IPToSubscriber: a.ipToSubscriber,
+		NextFreeHint:   a.nextFreeHint,
 	}
 
 	return json.Marshal(state)
@@ -430,6 +432,12 @@ func (a *EpochBitmapAllocator) UnmarshalJSON(data []byte) error {
 	a.ipToSubscriber = state.IPToSubscriber
 	a.currentEpoch = state.CurrentEpoch
 	a.gracePeriod = state.GracePeriod
+	// Resume scanning where the serialised allocator would have (older snapshots
+	// carry no hint: fall back to the constructor's default).
+	a.nextFreeHint = temp.nextFreeHint
+	if state.NextFreeHint != 0 && state.NextFreeHint < a.totalIPs {
+		a.nextFreeHint = state.NextFreeHint
+	}
 
 	return nil
 }
